@@ -381,7 +381,9 @@ def gen_script(rng, interrupt=None):
     vectors = [[dy(rng, 0, 8) for _ in range(12)] for _ in range(n)]
     pool = [-dy(rng, 0, 32, 4) for _ in range(max(1, n - rng.randint(0, 2)))]  # ties are likely
     logl = [rng.choice(pool) for _ in range(n)]
-    return {"vectors": vectors, "logl": logl, "interrupt": interrupt}
+    # log priors chosen so that the maximum-posterior sample is often not the maximum-likelihood sample
+    logp = [rng.choice([0.0, -0.5, -16.0]) for _ in range(n)]
+    return {"vectors": vectors, "logl": logl, "logp": logp, "interrupt": interrupt}
 
 
 def gen_fit(rng, idx, kind="single", real=None, allow_arith=False):
